@@ -19,7 +19,7 @@ SERVER_OWN = {b"date", b"server", b"alt-svc", b"connection"}
 
 def plan(tier: str) -> dict:
     return {
-        "runs": 12000 if tier == "quick" else 300000,
+        "runs": 12000 if tier == "quick" else 600000,
         "budget": 150 if tier == "quick" else 900,
         "cases": [],
         "chunk": 40,
